@@ -265,16 +265,16 @@ Proof.
 Qed.
 
 (* ------------------------------------------------------------------ steps and chains *)
-Notation step := (nat * nat * bool)%type (only parsing).
-Definition sdart (s : step) : dart := (fst (fst s), snd s).
-Definition step_ok (L : lattice) (s : step) : Prop :=
+Notation wstep := (nat * nat * bool)%type (only parsing).
+Definition sdart (s : wstep) : dart := (fst (fst s), snd s).
+Definition step_ok (L : lattice) (s : wstep) : Prop :=
   valid_dart L (sdart s) /\ snd (fst s) = dtail L (sdart s).
 
 Lemma walk_darts_sdart w : walk_darts w = map sdart w.
 Proof. reflexivity. Qed.
 
 (* reversed chain: acc = a_k :: ... :: a_0 with nd a_{i} = a_{i+1} *)
-Fixpoint rchain (L : lattice) (acc : list step) : Prop :=
+Fixpoint rchain (L : lattice) (acc : list wstep) : Prop :=
   match acc with
   | a :: ((b :: _) as r) => nd L (sdart b) = Some (sdart a) /\ rchain L r
   | _ => True
@@ -300,7 +300,7 @@ Proof.
 Qed.
 
 (* what a closed trace looks like, stated on the reversed accumulator *)
-Record racc_ok (L : lattice) (se : nat) (sd : bool) (acc : list step) : Prop := {
+Record racc_ok (L : lattice) (se : nat) (sd : bool) (acc : list wstep) : Prop := {
   ro_ne : acc <> [];
   ro_last : last acc (0%nat, 0%nat, true) = (se, dtail L (se, sd), sd);
   ro_ok : forall s, In s acc -> step_ok L s;
@@ -308,7 +308,7 @@ Record racc_ok (L : lattice) (se : nat) (sd : bool) (acc : list step) : Prop := 
   ro_nodup : NoDup (map sdart acc)
 }.
 
-Lemma app_removelast_last' (acc : list step) d : acc <> [] -> acc = removelast acc ++ [last acc d].
+Lemma app_removelast_last' (acc : list wstep) d : acc <> [] -> acc = removelast acc ++ [last acc d].
 Proof. apply app_removelast_last. Qed.
 
 Lemma trace_loop_closes L se sd :
@@ -377,13 +377,13 @@ Qed.
 (* ------------------------------------------------------------------ forward walks: closed orbits of nd *)
 Notation dflt := (0%nat, 0%nat, true).
 
-Fixpoint chain (L : lattice) (w : list step) : Prop :=
+Fixpoint chain (L : lattice) (w : list wstep) : Prop :=
   match w with
   | a :: ((b :: _) as r) => nd L (sdart a) = Some (sdart b) /\ chain L r
   | _ => True
   end.
 
-Record orbit_walk (L : lattice) (w : list step) : Prop := {
+Record orbit_walk (L : lattice) (w : list wstep) : Prop := {
   ow_ne : w <> [];
   ow_ok : forall s, In s w -> step_ok L s;
   ow_chain : chain L w;
@@ -402,10 +402,10 @@ Proof.
     apply IH; [exact Hc|]. intros _. apply H. discriminate.
 Qed.
 
-Lemma last_rev (l : list step) : last (rev l) dflt = hd dflt l.
+Lemma last_rev (l : list wstep) : last (rev l) dflt = hd dflt l.
 Proof. destruct l as [|a l]; [reflexivity|]. cbn [rev hd]. apply last_last. Qed.
 
-Lemma hd_rev (l : list step) : hd dflt (rev l) = last l dflt.
+Lemma hd_rev (l : list wstep) : hd dflt (rev l) = last l dflt.
 Proof.
   induction l as [|a l IH]; [reflexivity|]. cbn [rev].
   destruct l as [|b l]; [reflexivity|].
@@ -482,7 +482,7 @@ Proof.
   change (last (s :: b :: l) dflt) with (last (b :: l) dflt). apply IH, Hc.
 Qed.
 
-Lemma last_app_cons (l1 l2 : list step) s : last (l1 ++ s :: l2) dflt = last (s :: l2) dflt.
+Lemma last_app_cons (l1 l2 : list wstep) s : last (l1 ++ s :: l2) dflt = last (s :: l2) dflt.
 Proof.
   induction l1 as [|a l1 IH]; [reflexivity|].
   change ((a :: l1) ++ s :: l2) with (a :: (l1 ++ s :: l2)).
@@ -690,7 +690,7 @@ Qed.
 (* ------------------------------------------------------------------ every face walk is a consistent closed walk *)
 (* "taking its i-th edge in its i-th direction leads from its i-th vertex to its (i+1)-th",
    the successor of the last vertex being [vend] *)
-Fixpoint walk_ok (L : lattice) (w : list step) (vend : nat) : Prop :=
+Fixpoint walk_ok (L : lattice) (w : list wstep) (vend : nat) : Prop :=
   match w with
   | [] => True
   | s :: r => snd (fst s) = dtail L (sdart s) /\
